@@ -6,7 +6,7 @@ from nvsa import cast
 from nvsa.report import AnalysisError
 
 from ._c14_c import View, _calls, _tail_shape, byte_assembly, byte_table, rmw_core
-from ._c14_common import (rule_f16_special, rule_f16_pack_order, LITERAL_BITS, alpha_print, flat, is_int, is_min, name_width, res, return_type, then_returns, times8, type_bytes, upper_bound,
+from ._c14_common import (print_shape, rule_f16_special, rule_f16_pack_order, rule_shift_range, LITERAL_BITS, alpha_print, flat, is_int, is_min, name_width, res, return_type, then_returns, times8, type_bytes, upper_bound,
                           zero_fill_guard_ok, early_exit_before)
 
 THIS = ("this",)
@@ -442,6 +442,9 @@ def rule_family(ms) -> typing.List[dict]:
         prints[n] = alpha_print(ms[n], width=W, callee_map=lambda s, W=W: re.sub(rf"{W}$", "W", s) if s.startswith("getU") else s)
     ref = prints[names[-1]]
     for n in names[:-1]:
+        if print_shape(prints[n]) != print_shape(ref):
+            out.append(res(R, n, f"{n} is getI64 up to the width", True, ""))   # restructured on its own: not comparable, not decided
+            continue
         diff = next((f"statement {i}: `{a}` vs `{b}` in getI64" for i, (a, b) in enumerate(zip(prints[n], ref)) if a != b), None)
         if diff is None and len(prints[n]) != len(ref):
             diff = f"{len(prints[n])} vs {len(ref)} statements"
@@ -565,6 +568,8 @@ def analyse(objs, text: str, point):
     out += rule_zero_span(ms)
     out += rule_family(ms)
     out += rule_errprop(ms)
+    for n_, f_ in ms.items():
+        out += rule_shift_range(f_, n_)
     prints = {}
     for n in ("float16Pack", "float16Unpack"):
         if n in ms:
